@@ -212,9 +212,190 @@ theorem fold_detach_inv (xs : List Nat) :
     obtain ⟨a, b, d⟩ := ih _ (detach_inv s x h)
     exact ⟨a, by rw [b, (detach_kind s x).1], by rw [d, (detach_kind s x).2]⟩
 
-theorem dropWhere_inv (s : Forest) (c : Nat) (f : Nat → Bool) (h : s.Inv) :
-    (s.dropWhere c f).Inv ∧ (s.dropWhere c f).kind = s.kind ∧ (s.dropWhere c f).n = s.n :=
-  fold_detach_inv _ s h
+/-! ### `_replace_children` (the all-or-nothing setters, repo fix 9176cc9) -/
+
+theorem ext' {s t : Forest} (h1 : s.n = t.n) (h2 : s.kind = t.kind) (h3 : s.parent = t.parent)
+    (h4 : s.children = t.children) (h5 : s.srcs = t.srcs) (h6 : s.sens = t.sens) (h7 : s.colls = t.colls) : s = t := by
+  cases s; cases t; simp_all
+
+/-- `for child in xs: child._parent = p`, closed form -/
+theorem setParents_eq (xs : List Nat) (p : Option Nat) :
+    ∀ s : Forest, s.setParents xs p = { s with parent := fun x => if x ∈ xs then p else s.parent x } := by
+  induction xs with
+  | nil => intro s; apply ext' <;> simp [setParents]
+  | cons y xs ih =>
+    intro s
+    have : s.setParents (y :: xs) p = ({ s with parent := upd s.parent y p } : Forest).setParents xs p := rfl
+    rw [this, ih]
+    apply ext' <;> try rfl
+    funext x
+    simp only [List.mem_cons]
+    by_cases hx : x ∈ xs
+    · simp [hx]
+    · by_cases hy : x = y
+      · simp [hy, upd]
+      · simp [hx, hy, upd]
+
+/-- the state after the first three statements of `_replace_children` -/
+def unlinked (s : Forest) (c : Nat) (removed : List Nat) : Forest :=
+  sync { s.setParents removed none with
+         children := upd (s.setParents removed none).children c
+           ((s.children c).filter fun x => !removed.contains x) } c
+
+theorem replaceChildren_eq (s : Forest) (c : Nat) (removed new : List Nat) :
+    s.replaceChildren c removed new =
+      if ((s.unlinked c removed).add c new true).2 then (s.unlinked c removed).add c new true
+      else (sync (({ ((s.unlinked c removed).add c new true).1 with
+                      children := upd ((s.unlinked c removed).add c new true).1.children c (s.children c) } :
+                    Forest).setParents removed (some c)) c, false) := rfl
+
+theorem unlinked_parent (s : Forest) (c : Nat) (removed : List Nat) (x : Nat) :
+    (s.unlinked c removed).parent x = if x ∈ removed then none else s.parent x := by
+  simp [unlinked, sync, setParents_eq]
+
+theorem unlinked_children (s : Forest) (c : Nat) (removed : List Nat) (d : Nat) :
+    (s.unlinked c removed).children d =
+      if d = c then (s.children c).filter (fun x => !removed.contains x) else s.children d := by
+  simp only [unlinked, sync, setParents_eq, upd]
+
+theorem unlinked_kind_n (s : Forest) (c : Nat) (removed : List Nat) :
+    (s.unlinked c removed).kind = s.kind ∧ (s.unlinked c removed).n = s.n := by
+  simp [unlinked, sync, setParents_eq]
+
+theorem unlinked_inv (s : Forest) (c : Nat) (removed : List Nat) (h : s.Inv)
+    (hsub : ∀ x ∈ removed, x ∈ s.children c) : (s.unlinked c removed).Inv := by
+  unfold unlinked
+  apply sync_inv_of
+  · intro o d
+    simp only [setParents_eq, upd]
+    by_cases ho : o ∈ removed
+    · simp only [ho, if_true]
+      constructor
+      · intro hh; cases hh
+      · intro hmem
+        exfalso
+        have hoc := (h.parent_iff o c).mpr (hsub o ho)
+        split at hmem
+        · rename_i hd
+          have := (List.mem_filter.mp hmem).2
+          simp [ho] at this
+        · rename_i hd
+          have := (h.parent_iff o d).mpr hmem
+          rw [hoc] at this
+          exact hd (Option.some.inj this).symm
+    · simp only [ho, if_false]
+      split
+      · rename_i hd
+        subst hd
+        rw [h.parent_iff o d]
+        simp [List.mem_filter, ho]
+      · exact h.parent_iff o d
+  · intro d
+    simp only [setParents_eq, upd]
+    split
+    · exact (h.nodup c).filter _
+    · exact h.nodup d
+  · intro d hd
+    simp only [setParents_eq, upd_other _ _ _ _ hd]
+    exact h.views d
+  · intro d hd
+    simp only [setParents_eq, upd] at hd ⊢
+    split
+    · rename_i hdc; subst hdc; rw [h.only_colls d hd]; rfl
+    · exact h.only_colls d hd
+  · intro o d hod
+    simp only [setParents_eq] at hod ⊢
+    split at hod
+    · cases hod
+    · exact h.inScope o d hod
+
+/-- the `except` branch of `_replace_children` undoes the unlinking exactly -/
+theorem restore_unlinked (s : Forest) (c : Nat) (removed : List Nat) (h : s.Inv)
+    (hsub : ∀ x ∈ removed, x ∈ s.children c) :
+    sync (({ s.unlinked c removed with children := upd (s.unlinked c removed).children c (s.children c) } :
+            Forest).setParents removed (some c)) c = s := by
+  obtain ⟨v1, v2, v3⟩ := h.views c
+  apply ext'
+  · simp [sync, setParents_eq, (unlinked_kind_n s c removed).2]
+  · simp [sync, setParents_eq, (unlinked_kind_n s c removed).1]
+  · funext x
+    simp only [sync, setParents_eq, unlinked_parent]
+    by_cases hx : x ∈ removed
+    · simp only [hx, if_true]; exact ((h.parent_iff x c).mpr (hsub x hx)).symm
+    · simp [hx]
+  · funext d
+    simp only [sync, setParents_eq, unlinked_children, upd]
+    split <;> simp_all
+  · funext d
+    simp only [sync, setParents_eq, upd, (unlinked_kind_n s c removed).1]
+    by_cases hd : d = c
+    · subst hd; simp [v1]
+    · simp [hd, unlinked, sync, setParents_eq, upd]
+  · funext d
+    simp only [sync, setParents_eq, upd, (unlinked_kind_n s c removed).1]
+    by_cases hd : d = c
+    · subst hd; simp [v2]
+    · simp [hd, unlinked, sync, setParents_eq, upd]
+  · funext d
+    simp only [sync, setParents_eq, upd, (unlinked_kind_n s c removed).1]
+    by_cases hd : d = c
+    · subst hd; simp [v3]
+    · simp [hd, unlinked, sync, setParents_eq, upd]
+
+/-- ALL OR NOTHING: when `add` refuses the new children, `_replace_children` leaves the forest as it was -/
+theorem replaceChildren_rejected (s : Forest) (c : Nat) (removed new : List Nat) (h : s.Inv)
+    (hsub : ∀ x ∈ removed, x ∈ s.children c) (hr : (s.replaceChildren c removed new).2 = false) :
+    (s.replaceChildren c removed new).1 = s := by
+  rw [replaceChildren_eq] at hr ⊢
+  split at hr
+  · rename_i h2; rw [if_pos h2] at *; simp_all
+  · rename_i h2
+    rw [if_neg h2]
+    simp only
+    rw [add_rejected_unchanged _ c new true (by simpa using h2)]
+    exact restore_unlinked s c removed h hsub
+
+theorem replaceChildren_inv (s : Forest) (c : Nat) (removed new : List Nat) (h : s.Inv)
+    (hsub : ∀ x ∈ removed, x ∈ s.children c) :
+    (s.replaceChildren c removed new).1.Inv ∧ (s.replaceChildren c removed new).1.kind = s.kind ∧
+    (s.replaceChildren c removed new).1.n = s.n := by
+  by_cases hr : (s.replaceChildren c removed new).2 = false
+  · rw [replaceChildren_rejected s c removed new h hsub hr]; exact ⟨h, rfl, rfl⟩
+  · rw [replaceChildren_eq] at hr ⊢
+    split
+    · obtain ⟨a, b, d⟩ := add_inv _ c new true (unlinked_inv s c removed h hsub)
+      exact ⟨a, b.trans (unlinked_kind_n s c removed).1, d.trans (unlinked_kind_n s c removed).2⟩
+    · rename_i h2; rw [if_neg h2] at hr; simp at hr
+
+theorem typed_removed_sub (s : Forest) (c : Nat) (k : Kind) :
+    ∀ x ∈ (s.children c).filter (fun x => (s.typedView k c).contains x), x ∈ s.children c :=
+  fun _ hx => (List.mem_filter.mp hx).1
+
+theorem setChildren_inv (s : Forest) (c : Nat) (objs : List Nat) (h : s.Inv) :
+    (s.setChildren c objs).1.Inv ∧ (s.setChildren c objs).1.kind = s.kind ∧ (s.setChildren c objs).1.n = s.n :=
+  replaceChildren_inv s c _ objs h (fun _ hx => hx)
+
+theorem setTyped_inv (s : Forest) (c : Nat) (k : Kind) (objs : List Nat) (h : s.Inv) :
+    (s.setTyped c k objs).1.Inv ∧ (s.setTyped c k objs).1.kind = s.kind ∧ (s.setTyped c k objs).1.n = s.n := by
+  unfold setTyped
+  split
+  · exact ⟨h, rfl, rfl⟩
+  · exact replaceChildren_inv s c _ _ h (typed_removed_sub s c k)
+
+/-- a refused assignment to children / sources / sensors / collections changes nothing (consistent state) -/
+theorem setter_rejected_unchanged (s : Forest) (h : s.Inv) (c : Nat) :
+    (∀ objs, (s.setChildren c objs).2 = false → (s.setChildren c objs).1 = s) ∧
+    (∀ k objs, (s.setTyped c k objs).2 = false → (s.setTyped c k objs).1 = s) := by
+  constructor
+  · intro objs hr
+    exact replaceChildren_rejected s c _ objs h (fun _ hx => hx) hr
+  · intro k objs hr
+    unfold setTyped at hr ⊢
+    split
+    · rfl
+    · rename_i l hl
+      rw [hl] at hr
+      exact replaceChildren_rejected s c _ _ h (typed_removed_sub s c k) hr
 
 theorem plus_inv (s : Forest) (a b : Nat) (h : s.Inv) : (s.plus a b).1.Inv := by
   unfold plus
@@ -288,11 +469,11 @@ theorem step_inv (s : Forest) (op : FOp) (h : s.Inv) : (s.step op).1.Inv := by
     | some c => exact (add_inv s c [o] true h).1
   | setChildren c objs =>
     simp only [step]; split
-    · exact (add_inv _ c objs true (dropWhere_inv s c _ h).1).1
+    · exact (setChildren_inv s c objs h).1
     · exact h
   | setTyped c k objs =>
     simp only [step]; split
-    · exact (add_inv _ c _ true (dropWhere_inv s c _ h).1).1
+    · exact (setTyped_inv s c k objs h).1
     · exact h
   | plus a b => exact plus_inv s a b h
   | rejected => exact h
